@@ -93,7 +93,7 @@ def witnesses(tier, seed):
                 if t == 'f32' and quick and n > 5 and n != 9:
                     continue
                 W.append(mk(t, n, strat))
-            for n in ([12, 16, 17, 33, 40, 65] if quick else [32, 33, 40, 64, 65, 79, 80, 128, 129]):
+            for n in ([12, 16, 17, 33, 40, 65] if quick else [32, 33, 40, 64, 65, 79, 80]):
                 if t == 'f32' and quick and n != 17:
                     continue
                 W.append(mk(t, n, strat, band=1))
